@@ -207,6 +207,14 @@ def _eval(
                 "Already in dds.eval() context. Nested eval contexts are not supported",
                 DDSErrorCode.EVAL_IN_EVAL,
             )
+        if path not in _eval_ctx.requested_paths:
+            # The analysis of the evaluation did not see this call: its code is not tracked.
+            raise DDSException(
+                f"The function {fun} of module {fun.__module__} keeps the path {path}, but this call was not "
+                f"found when analyzing the current evaluation. The usual cause is that the module "
+                f"{fun.__module__} is not accepted. Use the function 'dds.accept_module' to accept "
+                f"{fun.__module__} or one of its parent packages."
+            )
         key = None if path is None else _eval_ctx.requested_paths[path]
         t = _time()
         if key is not None and _store().has_blob(key):
